@@ -22,3 +22,65 @@ def mk_dwarfinfo(ctx, little, addr_size, machine='x64', addresses=None, merge_re
         kw[name + '_sec'] = DI.DebugSectionDescriptor(stream=st, name='.' + name, global_offset=0, size=len(data), address=addr)
     cfg = DI.DwarfConfig(little_endian=little, machine_arch=machine, default_address_size=addr_size)
     return DI.DWARFInfo(config=cfg, **kw), streams
+
+
+# ---------------------------------------------------------------------------- unit headers (DWARF 5 7.5.1)
+from spec import enc as _enc
+
+UT = {'compile': 1, 'type': 2, 'partial': 3, 'skeleton': 4, 'split_compile': 5, 'split_type': 6}
+
+
+def unit_header(ver, fmt64, little, addr, abbrev_off=0, unit_type='compile', body_len=0, dwo_id=0, signature=0, type_offset=0, tu=False):
+    """complete unit header (unit_length counts everything after the length field incl. body_len bytes of DIEs).
+    Field arguments may be symbolic.  -> (bytes, header_size)"""
+    offsz = 8 if fmt64 else 4
+    h = _enc.enc_int(ver, 2, little)
+    if tu:        # DWARF 4 .debug_types
+        h += _enc.enc_int(abbrev_off, offsz, little) + [addr] + _enc.enc_int(signature, 8, little) + _enc.enc_int(type_offset, offsz, little)
+    elif ver >= 5:
+        h += [UT[unit_type], addr] + _enc.enc_int(abbrev_off, offsz, little)
+        if unit_type in ('skeleton', 'split_compile'):
+            h += _enc.enc_int(dwo_id, 8, little)
+        elif unit_type in ('type', 'split_type'):
+            h += _enc.enc_int(signature, 8, little) + _enc.enc_int(type_offset, offsz, little)
+    else:
+        h += _enc.enc_int(abbrev_off, offsz, little) + [addr]
+    n = len(h) + body_len
+    pre = ([0xff] * 4 + _enc.enc_int(n, 8, little)) if fmt64 else _enc.enc_int(n, 4, little)
+    return pre + h, len(pre) + len(h)
+
+
+def abbrev_table(decls):
+    """decls: list of (code, tag, has_children, [(attr, form[, implicit_const_value])]) with small concrete numbers (1-2 byte ULEB)"""
+    out = []
+    for code, tag, ch, attrs in decls:
+        out += _uleb(code) + _uleb(tag) + [1 if ch else 0]
+        for a in attrs:
+            out += _uleb(a[0]) + _uleb(a[1])
+            if a[1] == 0x21:
+                out += _sleb(a[2])
+        out += [0, 0]
+    return out + [0]
+
+
+def _uleb(v):
+    out = []
+    while True:
+        b = v & 0x7f
+        v >>= 7
+        if v:
+            out.append(b | 0x80)
+        else:
+            out.append(b)
+            return out
+
+
+def _sleb(v):
+    out = []
+    while True:
+        b = v & 0x7f
+        v >>= 7
+        if (v == 0 and not (b & 0x40)) or (v == -1 and (b & 0x40)):
+            out.append(b)
+            return out
+        out.append(b | 0x80)
